@@ -239,6 +239,26 @@ theorem modified_LLt (Q : Mat ℝ n m) (V : Mat ℝ m p) (S : Vector ℝ p) (hS 
   rw [hfac, nystroem_LLt _ _ hS, matMul_toM, Matrix.transpose_mul]
   simp only [Matrix.mul_assoc]
 
+/-- **never above K (improved Nyström / sparse_nystroem).** The factor is `L = Q V_p √S_p` with `A = K_xu Lp⁻ᵀ = Q R`
+    (QR contract: the Nyström projection is `A Aᵀ = Q (R Rᵀ) Qᵀ`) and `R Rᵀ = V diag(s) Vᵀ` (eigh contract), so
+    `L Lᵀ = Q V diag(s·[keep]) Vᵀ Qᵀ` (`modified_LLt`).  If the projection is not above `K'` (`inducing_loewner`,
+    `K' = K + jitter·I`) and the discarded eigenvalues are non-negative, the rank-reduced factor is not above `K'`
+    either: `K' − L Lᵀ = (K' − P) + Q V diag(s·[¬keep]) Vᵀ Qᵀ`. -/
+theorem modified_loewner {m : Nat} (K' : Matrix (Fin n) (Fin n) ℝ) (Q : Matrix (Fin n) (Fin m) ℝ)
+    (V : Matrix (Fin m) (Fin m) ℝ) (s : Fin m → ℝ) (keep : Fin m → Bool)
+    (hproj : (K' - Q * (V * Matrix.diagonal s * Vᵀ) * Qᵀ).PosSemidef)
+    (hdisc : ∀ i, keep i = false → 0 ≤ s i) :
+    (K' - Q * (V * Matrix.diagonal (fun i => if keep i then s i else 0) * Vᵀ) * Qᵀ).PosSemidef := by
+  have hT := truncation_psd V s keep hdisc
+  have hQ := hT.mul_mul_conjTranspose_same Q
+  rw [Matrix.conjTranspose_eq_transpose_of_trivial] at hQ
+  have e : K' - Q * (V * Matrix.diagonal (fun i => if keep i then s i else 0) * Vᵀ) * Qᵀ
+      = (K' - Q * (V * Matrix.diagonal s * Vᵀ) * Qᵀ)
+        + Q * (V * Matrix.diagonal s * Vᵀ - V * Matrix.diagonal (fun i => if keep i then s i else 0) * Vᵀ) * Qᵀ := by
+    rw [Matrix.mul_sub, Matrix.sub_mul]; abel
+  rw [e]
+  exact hproj.add hQ
+
 /-! ### shapes and dispatch of `compute_L` / `compute_Lp` -/
 
 /-- One row per cell; as many columns as cells (full), inducing points (sparse_cholesky, fixed) or
